@@ -31,7 +31,8 @@ Big == [nodes |-> [i \in 1 .. 40 |-> [id |-> i, parent |-> 0, kind |-> "file", c
 Init == kind = "" /\ baddirs = {} /\ badfiles = {} /\ path = "" /\ dfs = FALSE /\ fmt = "" /\ k = 0 /\ phase = "start"
 ChooseDirs == /\ phase = "start" /\ kind' = "dirs" /\ baddirs' \in Subsets2(Dirs) /\ badfiles' = {}
               /\ path' \in {"streamed", "ordered", "aggregate"} /\ dfs' \in BOOLEAN /\ fmt' = "list" /\ k' = 0 /\ phase' = "done"
-ChooseNotDir == /\ phase = "start" /\ kind' = "notdir" /\ baddirs' = {} /\ badfiles' = {}
+(* notdir: a root that is a regular file; missing: a root that does not exist (fails when its path is resolved, before listing) *)
+ChooseNotDir == /\ phase = "start" /\ kind' \in {"notdir", "missing"} /\ baddirs' = {} /\ badfiles' = {}
                 /\ path' \in {"streamed", "ordered"} /\ dfs' \in BOOLEAN /\ fmt' = "list" /\ k' = 0 /\ phase' = "done"
 ChooseFiles == /\ phase = "start" /\ kind' = "files" /\ badfiles' \in Subsets2(Files) /\ baddirs' = {}
                /\ path' \in {"metadata", "content", "aggregate"} /\ dfs' = FALSE /\ fmt' = "list" /\ k' = 0 /\ phase' = "done"
@@ -61,12 +62,12 @@ Scenario ==
          world |-> W(baddirs, {}), bad |-> baddirs, path |-> path, k |-> 0,
          env |-> [tz |-> "UTC", cwd |-> 0, uid |-> 65534],
          runs |-> << [tag |-> "q", ncols |-> 2, argv |-> <<DirQuery>>] >>]
-    [] kind = "notdir" ->
-        [prop |-> "C17", kind |-> kind, class |-> "root-not-a-directory/" \o path \o (IF dfs THEN "/dfs" ELSE "/bfs"),
+    [] kind \in {"notdir", "missing"} ->
+        [prop |-> "C17", kind |-> kind, class |-> (IF kind = "notdir" THEN "root-not-a-directory/" ELSE "root-does-not-exist/") \o path \o (IF dfs THEN "/dfs" ELSE "/bfs"),
          world |-> W({}, {}), bad |-> {}, path |-> path, k |-> 0,
          env |-> [tz |-> "UTC", cwd |-> 0, uid |-> 65534],
-         runs |-> << [tag |-> "q", ncols |-> 2,
-                      argv |-> << "select inode, path from 'd3'" \o Mode \o ", 'f0.txt'" \o Mode \o ", 'd1'" \o Mode
+         runs |-> << [tag |-> "q", ncols |-> 2, probes |-> <<"gone-root">>,
+                      argv |-> << "select inode, path from 'd3'" \o Mode \o (IF kind = "notdir" THEN ", 'f0.txt'" ELSE ", 'gone-root'") \o Mode \o ", 'd1'" \o Mode
                                   \o (IF path = "ordered" THEN " order by path" ELSE "") \o " into list" >>] >>]
     [] kind = "files" ->
         [prop |-> "C17", kind |-> kind, class |-> "unreadable=" \o SetText(badfiles) \o "/" \o path,
